@@ -690,13 +690,12 @@ impl BinArchive {
         if address >= self.data.len() {
             return Ok(());
         }
-        let range = address..self.data.len();
-        self.data.drain(range.clone());
-        for i in range.step_by(4) {
-            self.text.remove(&i);
-            self.labels.remove(&i);
-            self.pointers.remove(&i);
-        }
+        let removed = self.data.len() - address;
+        self.data.truncate(address);
+        self.text.retain(|cell, _| *cell < address);
+        self.labels.retain(|cell, _| *cell < address);
+        self.pointers.retain(|cell, _| *cell < address);
+        self.cstrings = filter_cstrings(&self.cstrings, address, removed);
         Ok(())
     }
 
